@@ -32,6 +32,10 @@ def run(ctx, rep):
     rep.guarded("R07-CALLERS", lambda: r_callers(fl, rep))
     rep.guarded("R07-VARIANTS", lambda: r_variants(sh, rep))
     rep.guarded("R07-CTORS", lambda: r_ctors(sh, rep))
+    rep.rule("R07-SEED", "decision-tree matrices: every find-by-case on case_matrices / relevant_columns that updates on a hit creates the entry on a miss (case matrices seeded from the default rows)", floor=6)
+    rep.guarded("R07-SEED", lambda: r_seed(sh, rep))
+    rep.rule("R07-LITEQ", "literal patterns are told apart exactly: equality on exhaustive::Literal / Pattern is structural (derived) or, if written by hand, free of lossy conversions", floor=2)
+    rep.guarded("R07-LITEQ", lambda: r_liteq(sh, rep))
 
 
 def r_called(sh, rep):
@@ -151,3 +155,68 @@ def r_ctors(sh, rep):
     fj = sh.file(DT)
     srcs = "".join(sh.nsrc(DT, fn["body"]) for q, fn in all_fns(fj) if "body" in fn and ("map_pattern_to_row" in q or "do_build_tree" in q or "build_tree" in q))
     rep.check("lookup_data_type_by_tipo(" in srcs, "R07-CTORS", "decision_tree#constructors-from-the-type-definition", DT, "the decision-tree builder must obtain a type's constructors through lookup_data_type_by_tipo")
+
+
+# ---------------------------------------------------------------------------------------------------------
+# R07-LITEQ: the usefulness algorithm specialises rows by literal equality; Aiken's Int is unbounded
+# ---------------------------------------------------------------------------------------------------------
+EXH = "crates/aiken-lang/src/tipo/exhaustive.rs"
+LOSSY = {"parse", "to_i128", "to_u128", "to_i64", "to_u64", "to_usize", "to_isize", "try_into", "try_from", "to_f64", "len", "first", "last", "get", "hash", "to_lowercase", "to_uppercase", "trim", "chars"}
+
+
+def r_liteq(sh, rep):
+    """Matrix::is_useful and specialize_row_by_literal decide `same literal?` with ==. Two literals are the same clause head
+    only if they denote the same value, and Int literals are arbitrary precision: any equality that goes through a fixed
+    width number (parse::<i128>, to_i64, ...) or a projection (length, prefix) identifies distinct literals — a reachable
+    clause is then rejected as redundant, or a missing one is not reported."""
+    fj = sh.file(EXH)
+    for name in ("Literal", "Pattern"):
+        en = find_enum(fj, name)
+        der = ",".join(a for a in en["attrs"] if a.startswith("derive("))
+        manual = [i for i in find_impls(fj, name, any_trait=True) if last(re.sub(r"<.*$", "", i.get("trait") or "")) == "PartialEq"]
+        if "PartialEq" in der and not manual:
+            rep.ok("R07-LITEQ", "%s#equality" % name, sh.loc(EXH, en), why="derived structural equality", sample={"derive": der})
+            continue
+        lossy = sorted({n["m"] for i in manual for n in walk(i) if n.get("k") == "MethodCall" and n["m"] in LOSSY} | {"as-cast" for i in manual for n in walk(i) if n.get("k") == "Cast"})
+        rep.check(bool(manual) and not lossy, "R07-LITEQ", "%s#equality" % name, sh.loc(EXH, manual[0]) if manual else sh.loc(EXH, en), "equality on exhaustive::%s is hand-written and goes through %s: literals that differ only beyond that conversion compare equal, so a clause on a distinct literal is reported unreachable (Int is arbitrary precision)" % (name, lossy or "nothing (no PartialEq at all)"), sample={"lossy": lossy})
+
+
+# ---------------------------------------------------------------------------------------------------------
+# R07-SEED: sibling agreement of the find-or-create sites that distribute a clause row over the case matrices
+# ---------------------------------------------------------------------------------------------------------
+DT = "crates/aiken-lang/src/gen_uplc/decision_tree.rs"
+KEYED = {"case_matrices": "default_matrix", "relevant_columns": None}
+
+
+def r_seed(sh, rep):
+    """do_build_tree distributes every clause row, in source order, over one matrix per case test. A row that belongs to a
+    case whose matrix does not exist yet must create it — from the wildcard rows seen so far plus this row — because a later
+    clause that creates the matrix builds it from the wildcard rows only: the earlier row would be missing and a later clause
+    would win although an earlier one matches (first-match order). All find-by-case sites are siblings: hit -> update,
+    miss -> create; a site that only handles the hit is the deviant."""
+    fj = sh.file(DT)
+    f = find_method(fj, "TreeGen", "do_build_tree")
+    rep.touched(DT, "TreeGen::do_build_tree")
+    n = 0
+    for node in walk(f["body"]):
+        if node.get("k") != "If" or not isinstance(node.get("cond"), dict) or node["cond"].get("k") != "LetCond":
+            continue
+        lc = node["cond"]
+        if last(pat_head(lc["pat"]) or "") != "Some":
+            continue
+        init = lc["e"]
+        if not (init.get("k") == "MethodCall" and init["m"] == "find"):
+            continue
+        base = init["recv"]
+        while base.get("k") == "MethodCall":
+            base = base["recv"]
+        if not (base.get("k") == "Path" and base["p"] in KEYED):
+            continue
+        vec = base["p"]
+        n += 1
+        els = node.get("else")
+        creates = els is not None and any(c.get("k") == "MethodCall" and c["m"] == "push" and c["recv"].get("k") == "Path" and c["recv"]["p"] == vec for c in walk(els))
+        seeded = KEYED[vec] is None or (els is not None and any(x.get("k") == "Path" and x["p"] == KEYED[vec] for x in walk(els)))
+        rep.check(creates and seeded, "R07-SEED", "do_build_tree#%s#find-or-create#%d" % (vec, n), sh.loc(DT, node), "this lookup in `%s` handles only the hit (miss branch %s%s): a row whose case has no entry yet is dropped, and a later clause creating the entry starts from the wildcard rows alone — a list or constructor value then runs a later clause than the first one that matches" % (vec, "creates an entry" if creates else "does not create the entry", "" if seeded else ", not seeded from `%s`" % KEYED[vec]), sample={"table": vec, "line": node["s"][0]})
+    if n < 6:
+        rep.bad("R07-SEED", "do_build_tree#sites", sh.loc(DT, f), "only %d find-or-create sites found in do_build_tree, 6 confirmed by hand (anchor)" % n)
